@@ -5,7 +5,7 @@ Local Open Scope Q_scope.
 (* upper bound: total-site hot/cold targets never exceed the total hot/cold utility duty handed up by the zones
    (which is the sum of the zonal targets when each zone's utilities sum to its targets) *)
 Theorem C09_total_site_le_sum :
-  forall w hu cu g, 0 < w -> wfs hu -> wfs cu -> desc g -> g <> [] -> covers g (eps_all hu cu) -> gaps_ok w g ->
+  forall w hu cu g, 0 < w -> wfs hu -> wfs cu -> desc g -> g <> [] -> covers g (eps_all hu cu) -> gaps_ok w 0 g ->
   site_Qh w hu cu g <= duty hu /\ site_Qc w hu cu g <= duty cu.
 Proof. intros. apply site_targets_le_duties; assumption. Qed.
 Print Assumptions C09_total_site_le_sum.
@@ -14,7 +14,7 @@ Print Assumptions C09_total_site_le_sum.
    zone's utility profile feasible, summed over the partition of the site's streams), the total-site hot target is at
    least the deficit above ANY temperature, i.e. at least the site's own direct-integration target *)
 Theorem C09_total_site_ge_direct :
-  forall w hu cu g, 0 < w -> wfs hu -> wfs cu -> desc g -> g <> [] -> covers g (eps_all hu cu) -> gaps_ok w g ->
+  forall w hu cu g, 0 < w -> wfs hu -> wfs cu -> desc g -> g <> [] -> covers g (eps_all hu cu) -> gaps_ok w 0 g ->
   forall hotS coldS, (forall T, Dnet hotS coldS T <= U hu cu T) -> forall T, Dnet hotS coldS T <= site_Qh w hu cu g.
 Proof. intros. eapply site_Qh_ge_direct; eauto. Qed.
 Print Assumptions C09_total_site_ge_direct.
